@@ -43,6 +43,39 @@ class Prop(SeqProp):
                 core.cleanup_dir(self.scratch)
                 self.scratch = None
 
+    # a multi-threaded parent (harness/forkthread.py): a child is forked while another thread of the parent stands between the seek
+    # and the read of an access; oracle only (the model's processes are single-threaded)
+    def extra_scenarios(self, rng, tier):
+        return [{"kind": "threaded-parent", "variant": v, "seed": rng.randrange(1 << 30)}
+                for _ in range(1 if tier == "quick" else 6) for v in VARIANTS]
+
+    def run_extra(self, desc):
+        import signal
+        import subprocess
+        import sys as _sys
+        outcomes = []
+        for attempt in range(2):
+            p = subprocess.Popen([_sys.executable, "-W", "ignore", "-m", "harness.forkthread", desc["variant"], str(desc["seed"])],
+                                 cwd=core.VERIF, stdout=subprocess.PIPE, stderr=subprocess.STDOUT, text=True,
+                                 start_new_session=True)
+            try:
+                out, _ = p.communicate(timeout=60)
+                outcomes.append(None if (p.returncode == 0 and "DONE" in out) else out.strip()[-400:])
+            except subprocess.TimeoutExpired:
+                outcomes.append("the scenario did not finish within 60 s")
+            finally:
+                try:
+                    os.killpg(p.pid, signal.SIGKILL)
+                except Exception:
+                    pass
+                try:
+                    p.communicate(timeout=5)
+                except Exception:
+                    pass
+            if outcomes[-1] is None:
+                return None
+        return f"{desc['variant']}, twice out of two runs: {outcomes[-1]}"
+
     def corpus(self):
         cs = [Case(["fork 0", "seek 0 3", "seek 1 7", "read 0", "read 1", "fork 1", "seek 2 5", "seek 1 1", "seek 0 9",
                     "read 1", "read 2", "read 0"], {"variant": v}, "parent, child and grandchild interleaved") for v in VARIANTS]
